@@ -68,7 +68,7 @@ def run(rep, tier, seed):
     if tier != "thorough":
         cs2 = []
         for k, (sc, c) in enumerate(cs):
-            if k % 6:
+            if not common.keep(k, 6):
                 c = dict(c)
                 c.pop("delay")
             cs2.append((sc, c))
